@@ -254,3 +254,63 @@ func VerifC15_MaxDelayExpiry() {
 	rt.Assert(time.Since(t1) < 5*u, "maxdelay/later-microtask-admitted-immediately")
 	rt.Reach("maxdelay-end")
 }
+
+// ---- O5: a module stop that waits for running microtasks completes as soon
+// as the last one has finished ----
+
+func VerifC15_StopNotHeldUp() {
+	rt.NoTimers()
+	rt.SchedYieldOnly(true)
+	m := c15Setup(2)
+	m.status = StatusOnline
+	close(m.startComplete)
+	// natively a lost completion must show up as a hang, not as a one-minute timeout
+	moduleStopTimeout = time.Hour
+	gate := make(chan struct{})
+	entered := make(chan struct{}, 2)
+	n := 1 + rt.Choice("microtasks", 2)
+	var dones []func()
+	for i := 0; i < n; i++ {
+		fn := func(context.Context) error {
+			entered <- struct{}{}
+			<-gate
+			return nil
+		}
+		switch rt.Choice("variant"+string(rune('0'+i)), 6) {
+		case 0:
+			m.StartHighPriorityMicroTask("t", fn)
+		case 1:
+			m.StartMicroTask("t", 0, fn)
+		case 2:
+			m.StartLowPriorityMicroTask("t", 0, fn)
+		case 3:
+			dones = append(dones, m.SignalHighPriorityMicroTask())
+			entered <- struct{}{}
+		case 4:
+			dones = append(dones, m.SignalMicroTask(0))
+			entered <- struct{}{}
+		case 5:
+			dones = append(dones, m.SignalLowPriorityMicroTask(0))
+			entered <- struct{}{}
+		}
+	}
+	for i := 0; i < n; i++ {
+		<-entered
+	}
+	rt.Assert(atomic.LoadInt32(m.microTaskCnt) == int32(n), "stop/microtasks-counted")
+	reports := make(chan *report, 1)
+	go m.stop(reports)
+	rt.Yield()
+	rt.Yield()
+	rt.Assert(len(reports) == 0, "stop/waits-for-running-microtasks")
+	// everything finishes
+	close(gate)
+	for _, done := range dones {
+		done()
+	}
+	rep := <-reports // a stop that is held up shows as a deadlock / hang here
+	rt.Assert(rep.err == nil, "stop/no-error")
+	rt.Assert(m.Status() == StatusOffline, "stop/offline-after-last-microtask-finished")
+	rt.Assert(atomic.LoadInt32(m.microTaskCnt) == 0, "stop/module-counter-zero")
+	rt.Reach("stopnotheldup-end")
+}
